@@ -8,6 +8,8 @@ import re
 from ..astutil import call_name, calls_in, const_str, guard_atoms, lexical_guards, own_exprs, test_atoms, unparse, walk_local
 from ..oracles import load
 from ..report import Registry, sub
+from ..astutil import parent_map
+from ._helpers_rob_f2 import env_of, expand_aliases, guard_atoms_at, resolve_name
 
 R = Registry(
     "C39",
@@ -40,6 +42,32 @@ def _strset(v):
     return None
 
 
+def _value_set_name(ctx):
+    """name of the local of CascadeOptions.__new__ that holds the normalised cascade names: the set handed to
+    `super().__new__(cls, <X>)` (the frozenset `self` is built from it)"""
+    f = ctx.func(f"{CO}.__new__")
+    for c in calls_in(f.node):
+        if isinstance(c.func, ast.Attribute) and c.func.attr == "__new__" and isinstance(c.func.value, ast.Call) \
+                and isinstance(c.func.value.func, ast.Name) and c.func.value.func.id == "super" and len(c.args) >= 2 \
+                and isinstance(c.args[1], ast.Name):
+            return c.args[1].id
+    ctx.error(f"{CO}.__new__: `super().__new__(cls, <value set>)` not found")
+
+
+def _fn_guards(ctx, f):
+    """atoms(node) -> set of (text, polarity): branch outcomes dominating `node` in function f (CFG: if/else either way
+    round, early return/continue, nested ifs), boolean locals and plain aliases with one definition expanded,
+    `"x" == t` spelled `t == "x"`"""
+    fn = f.node if hasattr(f, "node") else f
+    g = ctx.cfg(f)
+    pm = parent_map(fn)
+    env = env_of(fn)
+
+    def at(node):
+        return set(guard_atoms_at(g, pm, node, env, expand=True))
+    return at
+
+
 @R.rule("C39-R1", floor=10, template="T-TABLE",
         desc="CascadeOptions.__new__: flag attribute <-> literal of the same name for all six flags; 'all' expansion; "
              "'none' clears; delete-orphan requires delete")
@@ -47,14 +75,18 @@ def r1(ctx):
     orc = load("cascade_api.json")
     cls = ctx.index.cls(CO)
     f = ctx.func(f"{CO}.__new__")
-    pm = f.module.parents()
+    g = ctx.cfg(f)
+    at = _fn_guards(ctx, f)
+    env = env_of(f.node)
+    vset = _value_set_name(ctx)
+    sources = {vset, "self"}  # the normalised set, or the frozenset built from it
     flags = {}
     for n in walk_local(f.node):
         if isinstance(n, ast.Assign) and len(n.targets) == 1 and isinstance(n.targets[0], ast.Attribute) \
                 and isinstance(n.targets[0].value, ast.Name) and n.targets[0].value.id == "self":
             v = n.value
             if isinstance(v, ast.Compare) and len(v.ops) == 1 and isinstance(v.ops[0], ast.In) and const_str(v.left) is not None:
-                flags[n.targets[0].attr] = (const_str(v.left), unparse(v.comparators[0]), n)
+                flags[n.targets[0].attr] = (const_str(v.left), unparse(expand_aliases(v.comparators[0], env)), n)
     slots = ctx.ev.class_value(cls, "__slots__")
     slots = list(slots) if isinstance(slots, (list, tuple)) else None
     ctx.require(slots, f"{CO}.__slots__ not evaluable")
@@ -68,36 +100,66 @@ def r1(ctx):
         probs = []
         if lit != cascade:
             probs.append(f"flag {attr} is computed from literal '{lit}' instead of '{cascade}'")
-        if src != "values":
+        if src not in sources:
             probs.append(f"flag is computed from `{src}` not from the normalised value set")
         if attr not in slots:
             probs.append("flag missing from __slots__")
-        ctx.check(not probs, key, "; ".join(probs), f"'{lit}' in values", f"{f.module.path}:{node.lineno}")
+        ctx.check(not probs, key, "; ".join(probs), f"'{lit}' in {src}", f"{f.module.path}:{node.lineno}")
     # 'all' expansion
     add = _strset(ctx.ev.class_value(cls, "_add_w_all_cascades"))
     allowed = _strset(ctx.ev.class_value(cls, "_allowed_cascades"))
     ctx.require(add is not None and allowed is not None, f"{CO}: _add_w_all_cascades/_allowed_cascades not evaluable")
     want = set(orc["all_expands_to"])
-    upd = [c for c in calls_in(f.node) if call_name(c) == "values.update" and unparse(c.args[0]).endswith("_add_w_all_cascades")]
-    g_ok = bool(upd) and ("'all' in values", True) in guard_atoms(lexical_guards(pm, upd[0], stop=f.node))
+
+    def is_all_set(e):
+        return unparse(e).endswith("_add_w_all_cascades")
+
+    upd = []  # statements that add the 'all' names to the value set: X.update(S) / X |= S / X = X | S
+    clr = []  # statements that empty it: X.clear() / X = set()
+    for n in walk_local(f.node):
+        if isinstance(n, ast.Expr) and isinstance(n.value, ast.Call):
+            c = n.value
+            if call_name(c) == f"{vset}.update" and c.args and is_all_set(c.args[0]):
+                upd.append(n)
+            elif call_name(c) == f"{vset}.clear":
+                clr.append(n)
+        elif isinstance(n, ast.AugAssign) and isinstance(n.op, ast.BitOr) and isinstance(n.target, ast.Name) and n.target.id == vset and is_all_set(n.value):
+            upd.append(n)
+        elif isinstance(n, ast.Assign) and len(n.targets) == 1 and isinstance(n.targets[0], ast.Name) and n.targets[0].id == vset:
+            v = n.value
+            if isinstance(v, ast.BinOp) and isinstance(v.op, ast.BitOr) and (is_all_set(v.left) or is_all_set(v.right)):
+                upd.append(n)
+            elif isinstance(v, ast.Call) and call_name(v) == f"{vset}.union" and v.args and is_all_set(v.args[0]):
+                upd.append(n)
+            elif isinstance(v, ast.Call) and call_name(v) in ("set", "frozenset") and not v.args:
+                clr.append(n)
+    g_ok = bool(upd) and (f"'all' in {vset}", True) in at(upd[0])
     ctx.check(add == want and g_ok, f"{CO}:all",
-              f"'all' expands to {sorted(add)} (documented: {sorted(want)}) / expansion not guarded by `'all' in values`",
+              f"'all' expands to {sorted(add)} (documented: {sorted(want)}) / expansion not guarded by `'all' in {vset}`",
               f"all -> {sorted(add)}", f.loc)
     ctx.check(allowed == set(orc["cascades"]) | set(orc["pseudo"]), f"{CO}:allowed",
               f"accepted cascade names {sorted(allowed)} differ from the documented ones", f"{sorted(allowed)}", cls.loc)
-    clr = [c for c in calls_in(f.node) if call_name(c) == "values.clear"]
-    n_ok = bool(clr) and ("'none' in values", True) in guard_atoms(lexical_guards(pm, clr[0], stop=f.node))
-    # 'none' must be applied after 'all' so that it wins, and before the flags are computed
-    order_ok = n_ok and upd and clr[0].lineno > upd[0].lineno and all(clr[0].lineno < n.lineno for _, _, n in flags.values())
+    n_ok = bool(clr) and (f"'none' in {vset}", True) in at(clr[0])
+    # 'none' must be applied after 'all' so that it wins, and before the flags are computed (order on the CFG)
+    order_ok = False
+    if n_ok and upd:
+        cn, un = g.nodes_for(clr[0]), g.nodes_for(upd[0])
+        fl = [i for _, _, n in flags.values() for i in g.nodes_for(n)]
+        order_ok = (g.witness(un, cn) is not None and g.witness(cn, un) is None
+                    and all(g.witness([i], cn) is None for i in fl) and all(g.witness(cn, [i]) is not None for i in fl))
     ctx.check(bool(order_ok), f"{CO}:none", "'none' does not clear the value set after the 'all' expansion and before the flags are computed",
               "none clears", f.loc)
-    # delete-orphan requires delete
+    # delete-orphan requires delete: a warning/raise whose dominating outcomes are `delete-orphan set` and `delete not set`
+    orphan_on = {("self.delete_orphan", True)} | {(f"'delete-orphan' in {s_}", True) for s_ in sources}
+    delete_off = {("self.delete", False)} | {(f"'delete' in {s_}", False) for s_ in sources}
     ok = False
     for n in walk_local(f.node):
-        if isinstance(n, ast.If):
-            if set(test_atoms(n.test, True)) == {("self.delete_orphan", True), ("self.delete", False)}:
-                ok = any((call_name(c) or "").split(".")[-1] in ("warn", "warn_deprecated") for st in n.body for c in calls_in(st)) \
-                     or any(isinstance(st, ast.Raise) for st in n.body)
+        reports = isinstance(n, ast.Raise) or (isinstance(n, ast.Expr) and isinstance(n.value, ast.Call)
+                                               and (call_name(n.value) or "").split(".")[-1] in ("warn", "warn_deprecated", "warn_limited"))
+        if reports:
+            a_ = at(n)
+            if a_ & orphan_on and a_ & delete_off:
+                ok = True
     ctx.check(ok, f"{CO}:delete-orphan", "delete-orphan without delete is not reported (warn/raise)", "warns", f.loc)
 
 
@@ -131,17 +193,18 @@ def r2(ctx):
     for mname, f in cls.methods.items():
         for c in calls_in(f.node):
             if (call_name(c) or "").endswith(".cascade_iterator") and c.args:
-                lit = const_str(c.args[0])
+                lit = const_str(resolve_name(env_of(f.node), c.args[0]))  # `cascade_type = "delete"` local
                 ctx.require(lit is not None, f"{f.key}: cascade_iterator called with a non-literal type `{unparse(c.args[0])}`")
                 sites.setdefault(mname, []).append((lit, c))
+                ctx.functions_analysed.add(f.key)  # stored refactors of session.py are replayed by the self-test
     ctx.require(len(sites) >= 4, f"only {len(sites)} Session methods call cascade_iterator (rule went blind)")
     # merge: prop.merge under the 'merge' flag
     rp = ctx.func("orm/relationships.py::RelationshipProperty.merge")
-    merge_guard = False
-    for n in walk_local(rp.node):
-        if isinstance(n, ast.If) and unparse(n.test).replace(" ", "") in ("'merge'notinself._cascade", "'merge'notinself.cascade") \
-                and n.body and isinstance(n.body[0], ast.Return):
-            merge_guard = True
+    # the recursion into session._merge (the cascade) happens only where `'merge' in self._cascade` holds
+    rp_at = _fn_guards(ctx, rp)
+    rec = [c for c in calls_in(rp.node) if (call_name(c) or "").endswith("._merge")]
+    ctx.require(rec, f"{rp.key}: no session._merge(..) recursion found")
+    merge_guard = all({("'merge' in self._cascade", True), ("'merge' in self.cascade", True)} & rp_at(c) for c in rec)
     reach_of = {}
     for a, want in sorted(api.items()):
         key = f"{SESS}::Session.{a}:cascade"
@@ -179,6 +242,7 @@ def r3(ctx):
     # self._cascade` test is reported by C39-R2 as a violation instead of tripping this floor first
     orc = load("cascade_api.json")
     names = set(orc["cascades"]) | set(orc["pseudo"])
+    vset = _value_set_name(ctx)
     f = ctx.func("orm/mapper.py::Mapper.cascade_iterator")
     tp = f.params[1]
     g = ctx.cfg(f)
@@ -188,11 +252,7 @@ def r3(ctx):
     probs = []
     if not (c.args and isinstance(c.args[0], ast.Name) and c.args[0].id == tp):
         probs.append(f"forwards `{unparse(c.args[0]) if c.args else '?'}` instead of the requested type `{tp}`")
-    nodes = g.nodes_containing(c)
-    atoms = set()
-    for nid in nodes:
-        for t, pol in g.edge_guards(nid):
-            atoms |= set(test_atoms(t, pol))
+    atoms = _fn_guards(ctx, f)(c)
     if (f"{tp} in prop.cascade", True) not in atoms:
         probs.append(f"the relationship is traversed without `{tp} in prop.cascade` being established (found {sorted(atoms)[:4]})")
     ctx.check(not probs, f.key, "; ".join(probs), f"guarded by {tp} in prop.cascade; forwards {tp}", f.loc)
@@ -213,7 +273,7 @@ def r3(ctx):
                             lit, other, kind = const_str(a), "type_", "type comparison"
                 elif isinstance(n.ops[0], (ast.In, ast.NotIn)) and const_str(l) is not None:
                     tgt = unparse(r_)
-                    if tgt.split(".")[-1] in ("cascade", "_cascade") or tgt in ("values",) and fi.key.startswith(CO):
+                    if tgt.split(".")[-1] in ("cascade", "_cascade") or tgt in (vset, "self") and fi.key.startswith(CO + ".__new__"):
                         lit, other, kind = const_str(l), tgt, "membership test"
                 if lit is None:
                     continue
@@ -244,6 +304,18 @@ def _local_assigns(fn):
 
 def _history_part(e, hist):
     """accessor name when `e` is `<history>.<part>` or `<history>.<part>()`"""
+    # `[c for c in history.deleted if ..]`, `list(history.deleted)`, `filter(None, history.deleted)`: the same members
+    for _ in range(3):
+        if isinstance(e, (ast.ListComp, ast.GeneratorExp, ast.SetComp)) and len(e.generators) == 1 \
+                and isinstance(e.elt, ast.Name) and isinstance(e.generators[0].target, ast.Name) \
+                and e.elt.id == e.generators[0].target.id:
+            e = e.generators[0].iter
+        elif isinstance(e, ast.Call) and isinstance(e.func, ast.Name) and e.func.id in ("list", "tuple", "set", "sorted", "iter", "reversed") and len(e.args) == 1:
+            e = e.args[0]
+        elif isinstance(e, ast.Call) and isinstance(e.func, ast.Name) and e.func.id == "filter" and len(e.args) == 2:
+            e = e.args[1]
+        else:
+            break
     if isinstance(e, ast.Call) and not e.args:
         e = e.func
     if isinstance(e, ast.Attribute) and isinstance(e.value, ast.Name) and e.value.id in hist:
@@ -251,17 +323,18 @@ def _history_part(e, hist):
     return None
 
 
+_PM_ENV: dict = {}
+
+
 def _guard_atoms_at(g, node_ast):
-    atoms = set()
-    ids = g.nodes_containing(node_ast) if not isinstance(node_ast, ast.stmt) else g.nodes_for(node_ast)
-    first = True
-    for nid in ids:
-        a = set()
-        for t, pol in g.edge_guards(nid):
-            a |= set(test_atoms(t, pol))
-        atoms = a if first else (atoms & a)
-        first = False
-    return atoms
+    """branch outcomes dominating `node_ast` in the function of CFG g: boolean locals / plain aliases with a single
+    definition are expanded (`orphans = self.cascade.delete_orphan`, `orphaned = self.hasparent(c) is False`)"""
+    fn = g.fn
+    k = id(fn)
+    if k not in _PM_ENV or _PM_ENV[k][0] is not fn:
+        _PM_ENV[k] = (fn, parent_map(fn), env_of(fn))
+    _, pm, env = _PM_ENV[k]
+    return set(guard_atoms_at(g, pm, node_ast, env, expand=True))
 
 
 def _orphan_flag_true(atoms):
@@ -578,3 +651,122 @@ R.mutant("benign-session-local", SESS,
          sub("        cascaded = list(\n            state.manager.mapper.cascade_iterator(\"expunge\", state)\n        )\n",
              "        mp = state.manager.mapper\n        cascaded = list(mp.cascade_iterator(\"expunge\", state))\n"),
          None)
+
+
+# -------------------------------------------------------------------------------------- rob-F2: benign refactor families
+def _chain(*edits):
+    def edit(src):
+        for e in edits:
+            src = e(src)
+        return src
+    return edit
+
+
+def _rename_in(start_marker, end_marker, old, new):
+    """rename identifier `old` to `new` between two markers of the source (a local of one function)"""
+    import re as _re
+
+    def edit(src):
+        from ..report import MutantNotApplicable
+        a = src.find(start_marker)
+        b = src.find(end_marker, a + 1)
+        if a < 0 or b < 0:
+            raise MutantNotApplicable(f"markers not found: {start_marker!r} .. {end_marker!r}")
+        return src[:a] + _re.sub(rf"\b{old}\b", new, src[a:b]) + src[b:]
+    return edit
+
+
+# family rfF_15: renamed cascade-tuple locals, inverted nested `if head: raise / else: return`
+R.mutant("benign-session-cascade-tuple-locals-renamed", SESS,
+         _chain(sub("        for o, m, st_, dct_ in mapper.cascade_iterator(\n            \"save-update\", state, halt_on=self._contains_state\n        ):\n            self._save_or_update_impl(st_)\n",
+                    "        cascade_type = \"save-update\"\n        for _obj, _mapper, cascaded_state, _dict in mapper.cascade_iterator(\n            cascade_type, state, halt_on=self._contains_state\n        ):\n            self._save_or_update_impl(cascaded_state)\n"),
+                sub("            if head:\n                raise sa_exc.InvalidRequestError(\n                    \"Instance '%s' is not persisted\" % state_str(state)\n                )\n            else:\n                return\n",
+                    "            if not head:\n                return\n\n            raise sa_exc.InvalidRequestError(\n                \"Instance '%s' is not persisted\" % state_str(state)\n            )\n")),
+         None)
+# family rfF_14: Mapper._is_orphan restructured with the same truth table
+R.mutant("benign-mapper-is-orphan-restructured", "orm/mapper.py",
+         _chain(sub("                if self.legacy_is_orphan and has_parent:\n                    return False\n                elif not self.legacy_is_orphan and not has_parent:\n                    return True\n",
+                    "                if self.legacy_is_orphan:\n                    if has_parent:\n                        return False\n                elif not has_parent:\n                    return True\n"),
+                sub("        if self.legacy_is_orphan:\n            return orphan_possible\n        else:\n            return False\n",
+                    "        if not self.legacy_is_orphan:\n            return False\n\n        return orphan_possible\n")),
+         None)
+# CascadeOptions.__new__: the normalised set under another name, flags read from the frozenset itself, nested warning test
+R.mutant("benign-cascade-options-value-set-renamed", UTIL,
+         _rename_in("        values = set(value_list)\n", "    def __repr__(self):\n        return \"CascadeOptions(", "values", "normalized"),
+         None)
+R.mutant("benign-cascade-options-flags-from-self-nested-warning", UTIL,
+         _chain(sub("        self.save_update = \"save-update\" in values\n        self.delete = \"delete\" in values\n", "        self.save_update = \"save-update\" in self\n        self.delete = \"delete\" in self\n"),
+                sub("        if self.delete_orphan and not self.delete:\n            util.warn(\"The 'delete-orphan' cascade option requires 'delete'.\")\n",
+                    "        if self.delete_orphan:\n            if not self.delete:\n                util.warn(\n                    \"The 'delete-orphan' cascade option requires 'delete'.\"\n                )\n")),
+         None)
+R.mutant("benign-cascade-options-all-none-flags", UTIL,
+         sub("        if \"all\" in values:\n            values.update(cls._add_w_all_cascades)\n        if \"none\" in values:\n            values.clear()\n",
+             "        expand_all = \"all\" in values\n        if expand_all:\n            values |= cls._add_w_all_cascades\n        if \"none\" not in values:\n            pass\n        else:\n            values.clear()\n"),
+         None)
+# RelationshipProperty.merge: flag test through an alias
+R.mutant("benign-relationship-merge-flag-alias", "orm/relationships.py",
+         sub("        if \"merge\" not in self._cascade:\n            return\n\n", "        cascades = self._cascade\n        cascades_merge = \"merge\" in cascades\n        if not cascades_merge:\n            return\n\n"),
+         None)
+# Mapper.cascade_iterator: cascade set in a local
+R.mutant("benign-mapper-cascade-set-alias", "orm/mapper.py",
+         sub("                if not prop.cascade or type_ not in prop.cascade:\n                    continue\n",
+             "                cascade = prop.cascade\n                if not cascade:\n                    continue\n                follows = type_ in cascade\n                if not follows:\n                    continue\n"),
+         None)
+# presort: flag and hasparent test in locals, early continue
+R.mutant("benign-o2m-presort-deletes-flag-locals-early-continue", DEP,
+         sub("                for child in history.deleted:\n                    if child is not None and self.hasparent(child) is False:\n                        if self.cascade.delete_orphan:\n                            uowcommit.register_object(child, isdelete=True)\n                        else:\n                            uowcommit.register_object(child)\n",
+             "                delete_orphans = self.cascade.delete_orphan\n                for child in history.deleted:\n                    if child is None:\n                        continue\n                    orphaned = self.hasparent(child) is False\n                    if not orphaned:\n                        continue\n"
+             "                    if delete_orphans:\n                        uowcommit.register_object(child, isdelete=True)\n                    else:\n                        uowcommit.register_object(child)\n"),
+         None)
+# relationship cascade_iterator: comparison written the other way round
+R.mutant("benign-relationship-cascade-iterator-yoda", "orm/relationships.py",
+         sub("        if type_ == \"save-update\":\n            tuples = state.manager[self.key].impl.get_all_pending(state, dict_)\n",
+             "        impl = state.manager[self.key].impl\n        if \"save-update\" == type_:\n            tuples = impl.get_all_pending(state, dict_)\n"),
+         None)
+# breaking edits on top of the refactored shapes
+R.mutant("value-set-renamed-flag-from-wrong-literal", UTIL,
+         _chain(_rename_in("        values = set(value_list)\n", "    def __repr__(self):\n        return \"CascadeOptions(", "values", "normalized"),
+                sub("        self.expunge = \"expunge\" in normalized\n", "        self.expunge = \"merge\" in normalized\n")),
+         "C39-R1")
+R.mutant("flags-from-raw-argument", UTIL,
+         sub("        self.delete = \"delete\" in values\n", "        self.delete = \"delete\" in value_list\n"), "C39-R1")
+R.mutant("all-flag-local-from-none-literal", UTIL,
+         sub("        if \"all\" in values:\n            values.update(cls._add_w_all_cascades)\n",
+             "        expand_all = \"none\" in values\n        if expand_all:\n            values |= cls._add_w_all_cascades\n"),
+         "C39-R1")
+R.mutant("nested-orphan-warning-wrong-polarity", UTIL,
+         sub("        if self.delete_orphan and not self.delete:\n            util.warn(\"The 'delete-orphan' cascade option requires 'delete'.\")\n",
+             "        if self.delete_orphan:\n            if self.delete:\n                util.warn(\n                    \"The 'delete-orphan' cascade option requires 'delete'.\"\n                )\n"),
+         "C39-R1")
+R.mutant("merge-flag-alias-tests-emptiness-only", "orm/relationships.py",
+         sub("        if \"merge\" not in self._cascade:\n            return\n\n", "        cascades = self._cascade\n        cascades_merge = bool(cascades)\n        if not cascades_merge:\n            return\n\n"),
+         "C39-R2")
+R.mutant("session-cascade-type-local-wrong", SESS,
+         sub("        for o, m, st_, dct_ in mapper.cascade_iterator(\n            \"save-update\", state, halt_on=self._contains_state\n",
+             "        cascade_type = \"refresh-expire\"\n        for o, m, st_, dct_ in mapper.cascade_iterator(\n            cascade_type, state, halt_on=self._contains_state\n"),
+         "C39-R2")
+R.mutant("mapper-cascade-alias-follows-any", "orm/mapper.py",
+         sub("                if not prop.cascade or type_ not in prop.cascade:\n                    continue\n",
+             "                cascade = prop.cascade\n                if not cascade:\n                    continue\n                follows = type_ in cascade or True\n                if not follows:\n                    continue\n"),
+         "C39-R3")
+R.mutant("o2m-presort-deletes-early-continue-inverted", DEP,
+         sub("                for child in history.deleted:\n                    if child is not None and self.hasparent(child) is False:\n                        if self.cascade.delete_orphan:\n                            uowcommit.register_object(child, isdelete=True)\n                        else:\n                            uowcommit.register_object(child)\n",
+             "                delete_orphans = self.cascade.delete_orphan\n                for child in history.deleted:\n                    if child is None:\n                        continue\n                    orphaned = self.hasparent(child) is False\n                    if orphaned:\n                        continue\n"
+             "                    if delete_orphans:\n                        uowcommit.register_object(child, isdelete=True)\n                    else:\n                        uowcommit.register_object(child)\n"),
+         "C39-R4")
+R.mutant("o2m-presort-deletes-flag-local-is-delete", DEP,
+         sub("                for child in history.deleted:\n                    if child is not None and self.hasparent(child) is False:\n                        if self.cascade.delete_orphan:\n",
+             "                delete_orphans = self.cascade.delete\n                for child in history.deleted:\n                    if child is not None and self.hasparent(child) is False:\n                        if delete_orphans:\n"),
+         "C39-R4")
+R.mutant("relationship-cascade-iterator-yoda-wrong-type", "orm/relationships.py",
+         sub("        if type_ == \"save-update\":\n            tuples = state.manager[self.key].impl.get_all_pending(state, dict_)\n",
+             "        impl = state.manager[self.key].impl\n        if \"delete\" == type_:\n            tuples = impl.get_all_pending(state, dict_)\n"),
+         "C39-R5")
+R.mutant("benign-o2m-presort-deletes-filtered-comprehension", DEP,
+         sub("                for child in history.deleted:\n                    if child is not None and self.hasparent(child) is False:\n                        if self.cascade.delete_orphan:\n",
+             "                removed = [c for c in history.deleted if c is not None]\n                for child in removed:\n                    if self.hasparent(child) is False:\n                        if self.cascade.delete_orphan:\n"),
+         None)
+R.mutant("o2m-presort-deletes-filtered-comprehension-no-hasparent", DEP,
+         sub("                for child in history.deleted:\n                    if child is not None and self.hasparent(child) is False:\n                        if self.cascade.delete_orphan:\n",
+             "                removed = [c for c in history.deleted if c is not None]\n                for child in removed:\n                    if child is not None:\n                        if self.cascade.delete_orphan:\n"),
+         "C39-R4")
